@@ -302,6 +302,7 @@ def segment_cases(run, rows, cheetah, n):
     problems = []
     for i in range(n):
         lat = realgen.gen_lattice(run.rng, n_max=5, depth=run.rng.choice([0, 1, 2, 3]))
+        J.uniquify(lat)
         dtype = run.rng.choice([torch.float32, torch.float64])
         if run.rng.random() < 0.3:
             J.vectorise(run.rng, lat, 3)
@@ -364,9 +365,9 @@ def main(tier, replay=None):
         run.cov["known_findings_not_reproduced"] += [f"F12:{c}" for c in tab["offenders_gone"]]
     rows = {r["cname"]: r for r in rows_l}
 
-    terms, cases, problems = element_cases(run, rows_l, cheetah, 6 if thorough else 3)
-    seg_problems = segment_cases(run, rows, cheetah, 150 if thorough else 30)
-    beam_problems = beam_cases(run, cheetah, 10 if thorough else 3)
+    terms, cases, problems = element_cases(run, rows_l, cheetah, 12 if thorough else 3)
+    seg_problems = segment_cases(run, rows, cheetah, 600 if thorough else 40)
+    beam_problems = beam_cases(run, cheetah, 40 if thorough else 4)
     run.sample(cases[0] if cases else {})
     failing = common.run_shards(PID, "clone", PREAMBLE, terms, "c15_check", shard=60)
     run.cov["traces_validated_against_impl"] += len(terms)
